@@ -47,7 +47,7 @@ CHECKS["C15"] = (
     "fault enumeration of the formatter child process x size classes x settings, plus proptest sequences of faults over consecutive write() calls; token-sequence oracle",
     "fault_enumeration",
     "A scripted stand-in formatter reproduces every listed failure (absent/directory/non-executable/empty file, exit codes after nothing/half/all output, four signals, invalid UTF-8, closed or never-read stdin with and without flooding stdout, slow reader, output before input, exit 3 with complete output) on tiny, ~200 KB and >= 4 MB bindings; Bindings::write must return Ok in a watched worker and the text must carry the header comment once, the raw lines once and in order, and tokenise (modulo trailing commas and literal spelling) to the unformatted token sequence; output of a failed formatter must not be used and output of a succeeding one must be. The three real formatters are compared the same way. The fault list is finite and enumerated completely.",
-    "The child is a harness binary (fakefmt), not rustfmt; a hang is bounded by a watchdog and reported as inconclusive.",
+    "The child is a harness binary (fakefmt), not rustfmt. A write() that does not return is a violation (write-hangs/*) only when the same formatter, fed the same text by a reference pipe driver that drains its output, terminates, and write() is still stuck after max(60 s, 50 x that time); otherwise a watchdog expiry is inconclusive.",
     "DESIGN.md section 2 / C15",
 )
 
@@ -55,7 +55,7 @@ CHECKS["C16"] = (
     "proptest-generated static/static-inline function libraries (C04 model) x suffix/path/language/header-passing modes; validity of the wrapper source (clang), symbol set of the wrapper object (nm), differential execution through the wrappers with the C04 digest oracle",
     "exploration",
     "Every function of a generated C04 library is defined `static` or `static inline` in the header (a third first declared without parameter names; optionally one function taking a va_list). bindgen runs with --wrap-static-fns (default or custom suffix, default or custom path; header by path, as two input headers, or as in-memory contents; C or C++). The wrapper source must compile against the header with the same flags; in C its object must define exactly the symbols `<name><suffix>` of the bound functions and nothing else; variadic static functions must not be bound; the C04 caller, linked against the wrapper object, must reproduce digest, return value, returned aggregates and pointee side effects of every wrapped function.",
-    "host target; in C++ the symbol check is link success; known findings excluded by construction and counted: parameters of type pointer-to-function-returning-function-pointer, a parameter named like its function.",
+    "host target; in C++ the symbol check is link success; an option dimension (--c-naming, --enable-cxx-namespaces, --merge-extern-blocks --sort-semantically) must not change which wrappers exist; known findings excluded by construction and counted: declarators the serialiser cannot spell (pointer to function returning a function pointer, functions returning function pointers, pointer-to-array and 2-D array parameters, arrays of callbacks, const callbacks in C++), a parameter named like its function, functions with their own calling convention.",
     "DESIGN.md section 2 / C16",
 )
 
@@ -63,15 +63,15 @@ CHECKS["C17"] = (
     "proptest-generated include trees; differential against `clang -M` on the same command line, depfile round-trip parse, callback log vs cargo lines",
     "exploration",
     "Generated include DAGs (five include forms, active and inactive preprocessor regions, repeated inclusion, awkward file names, symlinked search directory, one to three input headers, relative inputs) are written to disk; the realpath-normalised set clang reads must equal the set bindgen reports through each channel (depfile prerequisites, header_file/include_file notifications, cargo:rerun-if-changed lines captured from an isolated worker's stdout); the depfile must re-parse to the configured target and the same paths; rerun-if-env-changed lines must match the documented lookup chain for TARGET / BINDGEN_EXTRA_CLANG_ARGS*, none twice.",
-    "clang -M (binary, same front end as libclang) is the reference; the generator's own reachability model cross-checks the reference parse; header_contents inputs and raw `-- -include` arguments are not generated.",
+    "clang -M (binary, same front end as libclang) is the reference; the generator's own reachability model cross-checks the reference parse; colliding file names are left to clang alone (the model does not resolve search paths); command-line `-- -include` files are generated; header_contents inputs are not.",
     "DESIGN.md section 2 / C17",
 )
 
 CHECKS["C12"] = (
-    "proptest token/line mutants of repository headers + nesting families + attribute zoo + option sets + path faults, classified by `clang -fsyntax-only`; isolated worker with watchdog; totality oracle",
+    "proptest token/line mutants of repository headers + nesting families + attribute zoo + option sets + path faults, classified by `clang -fsyntax-only`; isolated worker with watchdog; totality oracle; thorough tier: preceded by a coverage-guided libFuzzer campaign (cargo-fuzz target hdr_total) whose flagged inputs are judged by the same evaluator",
     "exploration",
     "Every generation runs in a separate worker process so that panics, aborts, stack overflows, exit() and hangs are observable. Inputs: all repository headers as written, token- and line-level mutants of them (classified accepted/rejected by the clang binary with the same arguments), 14 nesting families up to depth 200, compositions of unusual declarations (calling conventions, vector/complex/bit-precise types, GNU extensions, C++ template corner cases), repository headers under random builder calls, file-system faults on the input path, and target/edition pairs. Required: Ok for accepted headers, Err(ClangDiagnostic) for rejected ones, the specific error for each path fault and unsupported pair, never a panic or process death.",
-    "clang 14 binary vs libclang 14 classification is assumed equal (missing-include disagreements are inconclusive); hangs are bounded by a 300 s watchdog and reported as inconclusive; option values that are pasted as Rust tokens are generated syntactically valid.",
+    "clang 14 binary vs libclang 14 classification is assumed equal (missing-include disagreements are inconclusive); hangs are bounded by a 300 s watchdog and reported as inconclusive; option values that are pasted as Rust tokens are generated syntactically valid; the libFuzzer stage is time-bounded (BGV_FUZZ_SECS, default 900 s x 16 jobs), so it is reproducible only up to its saved inputs; panics are attributed by differential re-runs (non-XID identifier characters, malformed annotations).",
     "DESIGN.md section 2 / C12",
 )
 
